@@ -30,6 +30,7 @@ class State:
                 return None
 
     def expr(self, node, fr, heap=True):
+        heap = heap and getattr(self, 'heap_subst', True)
         """substitute locals (and heap cells) into node; returns a new AST"""
         st = self
 
@@ -82,10 +83,11 @@ def _key(n):
 _MUTATORS = {'append', 'extend', 'insert', 'pop', 'remove', 'clear', 'update', 'setdefault', 'popitem', 'sort', 'reverse'}
 
 
-def replay(path, on_event=None):
+def replay(path, on_event=None, heap=True):
     """Walk the events of a path maintaining State; on_event(i, ev, state) is
     called *before* the event's own effect is applied."""
     st = State()
+    st.heap_subst = heap
     for i, ev in enumerate(path.ev):
         if on_event is not None:
             on_event(i, ev, st)
